@@ -387,6 +387,36 @@ fn run_shard(check_id: &str, tier: &str, seed: u64, shard: u64, nshards: u64, sc
     result
 }
 
+/// Run one case alone (optionally with an extra environment variable); returns
+/// (completed without hang, hang report, its report).
+fn run_case_alone(check_id: &str, tier: &str, seed: u64, ci: u64, scratch: &Path, tag: &str, env: Option<(&str, &str)>) -> (bool, Option<String>, Rep) {
+    let exe = std::env::current_exe().unwrap();
+    let out = scratch.join(format!("alone.{tag}.{ci}.jsonl"));
+    let _ = std::fs::remove_file(&out);
+    let mut cmd = Command::new(&exe);
+    cmd.args([
+        "child",
+        check_id,
+        tier,
+        &seed.to_string(),
+        "0",
+        "1",
+        out.to_str().unwrap(),
+        scratch.join(format!("alone-{tag}")).to_str().unwrap(),
+        "--only",
+        &ci.to_string(),
+    ])
+    .stdout(Stdio::null())
+    .stderr(Stdio::null());
+    if let Some((k, v)) = env {
+        cmd.env(k, v);
+    }
+    let Ok(mut child) = cmd.spawn() else { return (false, None, Rep::default()) };
+    let (status, hang) = wait_watch(&mut child, Duration::from_secs(900), Some(&out), Duration::from_secs(240));
+    let (rep, _, _, done) = parse_out(&out);
+    (hang.is_none() && done && status.map_or(false, |s| s.success()), hang, rep)
+}
+
 fn wait_with_timeout(child: &mut std::process::Child, timeout: Duration) -> Option<std::process::ExitStatus> {
     wait_watch(child, timeout, None, Duration::from_secs(u64::MAX / 4)).0
 }
@@ -751,9 +781,29 @@ pub fn cmd_check(args: &[String]) -> ExitCode {
     }
     // A confirmed hang is a verdict only for the properties that promise bounded progress
     // (C14: never a hang; C15: no interleaving deadlocks); elsewhere it is inconclusive.
+    let mut differential_done = 0;
     for (ci, h) in &hangs {
         if (id == "C14" || id == "C15") && h.starts_with("CONFIRMED-HANG") {
             crashed.push((*ci, h.clone()));
+        } else if id == "C13" && differential_done < 2 && *ci != u64::MAX {
+            // C13 hang differential: the case stalls again when run alone with the sampled
+            // configurations, and completes (no finding) with the plainest configuration for the
+            // very same history => whether the history completes depends on the configuration.
+            differential_done += 1;
+            let (ok_sampled, hang2, _) = run_case_alone(&id, tier, seed, *ci, &scratch, "sampled", None);
+            if ok_sampled || hang2.is_none() {
+                inconclusive.push(format!("case {ci}: {h} (not reproduced when run alone)"));
+                continue;
+            }
+            let (ok_base, _, rep_base) = run_case_alone(&id, tier, seed, *ci, &scratch, "baseline", Some(("NV_BASELINE_CFG", "1")));
+            if ok_base && rep_base.findings.is_empty() {
+                crashed.push((
+                    *ci,
+                    format!("CONFIG-DEPENDENT-HANG case {ci} never completes under its sampled configurations (twice: {h} / {}) but completes under the baseline configuration (1 commit worker, no warm-up, default caches)", hang2.unwrap_or_default()),
+                ));
+            } else {
+                inconclusive.push(format!("case {ci}: {h} (baseline configuration did not complete cleanly either)"));
+            }
         } else {
             inconclusive.push(format!("case {ci}: {h}"));
         }
@@ -795,6 +845,8 @@ pub fn cmd_check(args: &[String]) -> ExitCode {
             prop: id.clone(),
             sig: if what.starts_with("CONFIRMED-HANG") {
                 "confirmed-hang".into()
+            } else if what.starts_with("CONFIG-DEPENDENT-HANG") {
+                "config-dependent:hang".into()
             } else if what.starts_with("MIRI") {
                 "miri-undefined-behaviour".into()
             } else if what.starts_with("SANITIZER") {
